@@ -179,6 +179,7 @@ type caseRun struct {
 	desc     []string
 	feat     map[string]bool
 	commited bool
+	evm      *corevm.EVM // created at the first frame and re-used: the real code runs all frames of a message on ONE EVM
 }
 
 func (cr *caseRun) kid(k string) int {
@@ -534,32 +535,18 @@ func (cr *caseRun) step() {
 		}
 		cr.observe("SubRefund", fmt.Sprintf("MSide (SubRefund %d)", g), out, false, []getterObs{cr.getter(6, 0, 0)}, "")
 	case k < 45: // AddLog
-		cr.nextLog++
-		l := &ethtypes.Log{Address: A, Data: big.NewInt(int64(cr.nextLog)).Bytes()}
-		id := cr.logID(l)
-		s.AddLog(l)
-		cr.observe("AddLog", fmt.Sprintf("MSide (AddLog %d)", id), "MoOk", false, []getterObs{cr.getter(10, 0, 0)}, "")
+		cr.doAddLog(a)
 	case k < 48:
 		s.AddAddressToAccessList(A)
 		cr.observe("AddAddressToAccessList", fmt.Sprintf("MSide (AlAddAddr %d)", a), "MoOk", false, []getterObs{cr.getter(7, a, 0)}, "")
 	case k < 51:
-		sl := r.Intn(nSlots)
-		s.AddSlotToAccessList(A, common.BigToHash(Bi(int64(sl))))
-		cr.observe("AddSlotToAccessList", fmt.Sprintf("MSide (AlAddSlot %d %d)", a, sl), "MoOk", false, []getterObs{cr.getter(8, a, sl), cr.getter(7, a, 0)}, "")
+		cr.doAddSlot(a, r.Intn(nSlots))
 	case k < 55:
-		tk, v := r.Intn(nTKeys), r.Intn(4)
-		s.SetTransientState(A, common.BigToHash(Bi(int64(tk))), common.BigToHash(Bi(int64(v))))
-		cr.observe("SetTransientState", fmt.Sprintf("MSide (TsSet %d %d %d)", a, tk, v), "MoOk", false, []getterObs{cr.getter(9, a, tk)}, "")
-	case k < 67: // Snapshot
-		if cr.depth() > 12 {
-			cr.observe("Nop", "MNop", "MoOk", false, nil, "")
-			return
-		}
-		id := s.Snapshot()
-		cr.snapRec[id] = cr.digestNow()
-		delete(cr.opaque, id)
-		cr.feat["snapshot"] = true
-		cr.observe("Snapshot", "MSnapshot", fmt.Sprintf("(MoId (%d)%%Z)", id), false, nil, "")
+		cr.doTsSet(a, r.Intn(nTKeys), r.Intn(4))
+	case k < 64: // Snapshot
+		cr.doSnapshot()
+	case k < 67: // copy-versus-alias gadget on one side component
+		cr.gadget()
 	case k < 79: // RevertToSnapshot
 		cr.revert()
 	case k < 83: // bank send inside the logical universe
@@ -580,11 +567,93 @@ func (cr *caseRun) step() {
 		}
 		cr.feat["foreign"] = true
 		cr.observe("BankSend", fmt.Sprintf("MBankSend %d %d %s %%RAW%%", a, b, x), "MoOk", true, append(cr.related(a), cr.related(b)...), "")
-	case k < 94:
+	case k < 90:
 		cr.foreign()
 	default:
 		cr.frame()
 	}
+}
+
+func (cr *caseRun) doAddLog(a int) {
+	cr.nextLog++
+	l := &ethtypes.Log{Address: cr.e.A[a], Data: big.NewInt(int64(cr.nextLog)).Bytes()}
+	id := cr.logID(l)
+	cr.sdb.AddLog(l)
+	cr.observe("AddLog", fmt.Sprintf("MSide (AddLog %d)", id), "MoOk", false, []getterObs{cr.getter(10, 0, 0)}, "")
+}
+
+func (cr *caseRun) doAddSlot(a, sl int) {
+	cr.sdb.AddSlotToAccessList(cr.e.A[a], common.BigToHash(Bi(int64(sl))))
+	cr.observe("AddSlotToAccessList", fmt.Sprintf("MSide (AlAddSlot %d %d)", a, sl), "MoOk", false, []getterObs{cr.getter(8, a, sl), cr.getter(7, a, 0)}, "")
+}
+
+func (cr *caseRun) doTsSet(a, tk, v int) {
+	cr.sdb.SetTransientState(cr.e.A[a], common.BigToHash(Bi(int64(tk))), common.BigToHash(Bi(int64(v))))
+	cr.observe("SetTransientState", fmt.Sprintf("MSide (TsSet %d %d %d)", a, tk, v), "MoOk", false, []getterObs{cr.getter(9, a, tk)}, "")
+}
+
+// doSnapshot returns the new id, or -1 when the depth cap is reached (a Nop step is recorded instead).
+func (cr *caseRun) doSnapshot() int {
+	if cr.depth() > 12 {
+		cr.observe("Nop", "MNop", "MoOk", false, nil, "")
+		return -1
+	}
+	id := cr.sdb.Snapshot()
+	cr.snapRec[id] = cr.digestNow()
+	delete(cr.opaque, id)
+	cr.feat["snapshot"] = true
+	cr.observe("Snapshot", "MSnapshot", fmt.Sprintf("(MoId (%d)%%Z)", id), false, nil, "")
+	return id
+}
+
+// gadget: the pattern on which a shared (not copied) container inside a snapshot shows: the address already has an
+// entry in the component, a frame adds a further entry for the SAME address (nested once more sometimes), the frame is
+// reverted, the entry is re-queried (every step reads all side components) and sometimes added again.
+func (cr *caseRun) gadget() {
+	r := cr.r
+	a := r.Intn(nA)
+	kind := r.Intn(4)
+	name := []string{"access-list-slot", "transient-storage", "logs", "touched+suicided"}[kind]
+	x := r.Intn(12)
+	put := func(i int) {
+		switch kind {
+		case 0:
+			cr.doAddSlot(a, (x+i)%nSlots)
+		case 1:
+			cr.doTsSet(a, (x+i)%nTKeys, 1+r.Intn(3))
+		case 2:
+			cr.doAddLog(a)
+		default:
+			b := (a + i) % nA
+			if i%2 == 0 {
+				cr.sdb.AddBalance(cr.e.A[b], Bi(0))
+				cr.observe("AddBalance", fmt.Sprintf("MAddBalance %d 0 %%RAW%%", b), "MoOk", true, cr.related(b), "")
+			} else {
+				ret := cr.sdb.Suicide(cr.e.A[b])
+				cr.observe("Suicide", fmt.Sprintf("MSuicide %d %%RAW%%", b), "(MoBool "+CqBool(ret)+")", ret, cr.related(b), "")
+			}
+		}
+	}
+	put(0)
+	id := cr.doSnapshot()
+	if id < 0 {
+		return
+	}
+	put(1)
+	if r.Chance(40) {
+		if id2 := cr.doSnapshot(); id2 >= 0 {
+			put(2)
+			if r.Chance(50) {
+				cr.revertTo(id2, true)
+				put(2)
+			}
+		}
+	}
+	cr.revertTo(id, true)
+	if r.Chance(50) {
+		put(1)
+	}
+	cr.side.Count("gadget:" + name)
 }
 
 func (cr *caseRun) revert() {
@@ -610,6 +679,13 @@ func (cr *caseRun) revert() {
 			return
 		}
 	}
+	_ = s
+	cr.revertTo(id, valid)
+}
+
+func (cr *caseRun) revertTo(id int, valid bool) {
+	s := cr.sdb
+	d := cr.depth()
 	before := cr.digestNow()
 	p := CatchPanic(func() { s.RevertToSnapshot(id) })
 	after := cr.digestNow()
@@ -712,17 +788,22 @@ func (cr *caseRun) frame() {
 	var payload []byte
 	target := e.erc20
 	pk := ""
+	amt := Bi(0)
+	val := e.vals[r.Intn(len(e.vals))]
 	switch r.Intn(4) {
 	case 0:
 		pk = "transfer"
-		payload = append([]byte{0xa9, 0x05, 0x9c, 0xbb}, append(common.LeftPadBytes(other.Bytes(), 32), common.LeftPadBytes(Bi(int64(1+r.Intn(1000))).Bytes(), 32)...)...)
+		amt = Bi(int64(1 + r.Intn(1000)))
+		payload = append([]byte{0xa9, 0x05, 0x9c, 0xbb}, append(common.LeftPadBytes(other.Bytes(), 32), common.LeftPadBytes(amt.Bytes(), 32)...)...)
 	case 1:
 		pk = "approve"
-		payload = append([]byte{0x09, 0x5e, 0xa7, 0xb3}, append(common.LeftPadBytes(other.Bytes(), 32), common.LeftPadBytes(Bi(int64(r.Intn(1000))).Bytes(), 32)...)...)
+		amt = Bi(int64(r.Intn(1000)))
+		payload = append([]byte{0x09, 0x5e, 0xa7, 0xb3}, append(common.LeftPadBytes(other.Bytes(), 32), common.LeftPadBytes(amt.Bytes(), 32)...)...)
 	case 2:
 		pk = "delegate"
 		target = cpctypes.CpcStakingFixedAddress
-		payload = append([]byte{0x02, 0x6e, 0x40, 0x2b}, append(common.LeftPadBytes(e.vals[r.Intn(len(e.vals))].Bytes(), 32), common.LeftPadBytes(Bi(int64(1+r.Intn(100000))).Bytes(), 32)...)...)
+		amt = Bi(int64(1 + r.Intn(100000)))
+		payload = append([]byte{0x02, 0x6e, 0x40, 0x2b}, append(common.LeftPadBytes(val.Bytes(), 32), common.LeftPadBytes(amt.Bytes(), 32)...)...)
 	default:
 		pk = "transfer-too-much"
 		payload = append([]byte{0xa9, 0x05, 0x9c, 0xbb}, append(common.LeftPadBytes(other.Bytes(), 32), common.LeftPadBytes(Pow2(200).Bytes(), 32)...)...)
@@ -730,6 +811,7 @@ func (cr *caseRun) frame() {
 	to := target
 	input := payload
 	shape := "direct"
+	actor := caller // who the precompile sees as msg.sender
 	switch r.Intn(5) {
 	case 0, 1:
 	case 2:
@@ -747,19 +829,38 @@ func (cr *caseRun) frame() {
 		shape = "fwd(fwd-revert)-return"
 		to, input = e.fwd, FwdInput(FwdReturn, e.fwd, FwdInput(FwdRevert, target, payload))
 	}
+	if shape != "direct" {
+		actor = e.fwd
+	}
 	// what PrepareAccessList does for a transaction's destination (SSTORE gas accounting needs it)
 	if to == e.fwd && !s.AddressInAccessList(e.fwd) {
 		s.AddAddressToAccessList(e.fwd)
 		cr.observe("AddAddressToAccessList", fmt.Sprintf("MSide (AlAddAddr %d)", cr.aid(e.fwd)), "MoOk", false, nil, "")
 	}
-	cfg, err := e.c.App.EvmKeeper.EVMConfig(cr.base, nil)
-	require.NoError(cr.t, err)
-	msg := ethtypes.NewMessage(caller, &to, 0, Bi(0), 2_000_000, Bi(0), Bi(0), Bi(0), input, nil, true)
-	evm := e.c.App.EvmKeeper.NewEVM(cr.base, msg, cfg, evmtypes.NewNoOpTracer(), s)
+	if cr.evm == nil {
+		cfg, err := e.c.App.EvmKeeper.EVMConfig(cr.base, nil)
+		require.NoError(cr.t, err)
+		msg := ethtypes.NewMessage(caller, &to, 0, Bi(0), 2_000_000, Bi(0), Bi(0), Bi(0), input, nil, true)
+		cr.evm = e.c.App.EvmKeeper.NewEVM(cr.base, msg, cfg, evmtypes.NewNoOpTracer(), s)
+	} else {
+		cr.side.Count("frame-on-reused-evm")
+	}
+	evm := cr.evm
+	// the three quantities a precompile call of this driver can change, read through the current context
+	probe := func() [3]string {
+		ctx := s.GetCurrentContext()
+		out := [3]string{e.c.EvmBal(ctx, other).String(), e.c.App.CPCKeeper.GetErc20CpcAllowance(ctx, actor, other).String(), "0"}
+		if d, err := e.c.App.StakingKeeper.GetDelegation(ctx, sdk.AccAddress(actor.Bytes()), val); err == nil {
+			out[2] = d.Shares.TruncateInt().String()
+		}
+		return out
+	}
+	p0 := probe()
 	d0 := cr.depth()
 	before := cr.digestNow()
 	var callErr error
-	p := CatchPanic(func() { _, _, callErr = evm.Call(corevm.AccountRef(caller), to, input, 2_000_000, Bi(0)) })
+	var ret []byte
+	p := CatchPanic(func() { ret, _, callErr = evm.Call(corevm.AccountRef(caller), to, input, 2_000_000, Bi(0)) })
 	require.Nil(cr.t, p, "evm.Call panicked: %v", p)
 	d1 := cr.depth()
 	for id := d0 - 1; id <= d1-2; id++ {
@@ -785,7 +886,39 @@ func (cr *caseRun) frame() {
 		cr.observe(kind+":fail", fmt.Sprintf("MFrame false %d%%nat [] side0", 0), "(MoBool false)", false, nil, "")
 		return
 	}
-	// success: the frame's own snapshot stays revertible; record what it must restore
+	// success of the outermost frame.  What the precompile call inside must have left, by the property text: its effect
+	// when the call succeeded in frames that all completed, nothing when the frame around it reverted.
+	p1 := probe()
+	innerOK := shape == "direct" || (shape == "fwd-return" && len(ret) == 32 && ret[31] == 1)
+	exp := p0
+	if innerOK {
+		add := func(x string, d *big.Int) string { v, _ := new(big.Int).SetString(x, 10); return v.Add(v, d).String() }
+		switch pk {
+		case "transfer":
+			if actor != other {
+				exp[0] = add(p0[0], amt)
+			}
+		case "approve":
+			exp[1] = amt.String()
+		case "delegate":
+			exp[2] = add(p0[2], amt)
+			if actor == other {
+				exp[0] = p1[0] // the delegator's own balance pays (and receives pending rewards): not part of this check
+			}
+		}
+		cr.side.Count("frame-effect-expected:" + pk)
+	} else {
+		cr.side.Count("frame-no-effect-expected:" + pk)
+	}
+	if p1 != exp {
+		what := "effects-of-successful-frames-lost"
+		if !innerOK {
+			what = "reverted-inner-frame-left-a-trace"
+		}
+		cr.side.Hit("C03/statedb/evm.Call/"+what+"/"+pk+"/"+shape,
+			fmt.Sprintf("recipient balance / allowance / delegation shares through the current context: before %v, after %v, the property implies %v", p0, p1, exp), cr.desc)
+	}
+	// the frame's own snapshot stays revertible; record what it must restore
 	cr.snapRec[d0-1] = before
 	cr.feat["frame_ok"] = true
 	cr.prevTop = 0
@@ -957,6 +1090,14 @@ func TestDriverStatedb(t *testing.T) {
 		runCase(t, e, i, rng.Fork(uint64(i)), side, cases, maxLen)
 	}
 	runE2E(t, side, rng.Fork(1<<40))
+	nt := EnvInt("VERIF_TREES", 0)
+	if nt == 0 {
+		nt = 40 + n/3
+		if nt > 600 {
+			nt = 600
+		}
+	}
+	runTrees(t, side, rng.Fork(1<<41), nt)
 	cases.Write(t, 10)
 	side.Write(t, dir)
 }
